@@ -27,6 +27,8 @@ C03_Clause(j, kinds) ==
 (* C06: j0 = serialize(parse(doc)), j1 = serialize(parse(j0))               *)
 (***************************************************************************)
 R_C06(j0, j1) == JSame(j0, j1)
+(* C06_Clause (in PropsElem, where Inline is defined) tells a document that differs only in *)
+(* the NAMES given to its definitions from one whose content differs                      *)
 
 (***************************************************************************)
 (* C07: skeleton positions.  A skeleton path ignores how the parser        *)
